@@ -760,6 +760,75 @@ def r10_written_suffix_is_looked_at(ctx, rule="C13.R10"):
     ctx.require(rule, 2)
 
 
+def r11_argument_position_resolves_like_any_value(ctx, rule="C13.R11"):
+    """A name in argument position is a value like a name anywhere else in an expression: every
+    resolver the converter offers for ExprContext::Default (existing variable, constant, built-in and
+    user-defined function called without arguments) is also offered for ExprContext::Argument - on some
+    path; the function's own result variable may take precedence inside the function.  Evaluated by walking
+    the two `convert` functions that build the resolver list with the context fixed (TagFlow)."""
+    from .. import tagflow as tf
+    prog = ctx.prog
+    ec = [a for a in prog.adts.values() if a["path"].endswith("::ExprContext")]
+    if len(ec) != 1:
+        raise CheckError("anchor ExprContext")
+    EC = ec[0]["id"]
+    POS = "rusty_common::positioned::Positioned"
+    units = []
+    for f in prog.fns.values():
+        if f.crate != "rusty_linter" or f.body is None or "/converter/expr_rules/" not in (f.file or ""):
+            continue
+        pv = mir.Prov(f.body)
+        pushes = [b for b, t in f.body.calls() if mir.callee_path(t).split("::")[-1] == "push" and len(t["args"]) > 1
+                  and "VarResolve" in f.body.locals[mir.op_place(t["args"][0])[0]]["ty"]] if True else []
+        if pushes:
+            units.append(f)
+    if len(units) < 2:
+        raise CheckError("%s: %d functions build a list of VarResolve rules (expected the variable and the property converter)"
+                         % (rule, len(units)))
+
+    def pushed_type(body, pv, t):
+        o = mir.strip_all(pv.of_operand(t["args"][1]))
+        while o[0] == "call" and o[2] and o[1].split("::")[-1] == "new" and "Box" in o[1]:
+            o = mir.strip_all(o[2][0])
+        if o[0] == "call":
+            t2 = body.term(o[3])
+            return (t2.get("self_ty") or t2.get("cpath") or "?").split("::")[-1] + ":" + o[1].split("::")[-1]
+        if o[0] == "agg":
+            return str(o[2])
+        return mir.show_origin(o)[:40]
+
+    for f in sorted(units, key=lambda x: x.id):
+        pv = mir.Prov(f.body)
+        extra_local = [i for i in range(1, f.argc + 1) if "ExprContext" in f.body.locals[i]["ty"]]
+        if len(extra_local) != 1:
+            raise CheckError("%s: %s has no ExprContext parameter" % (rule, f.path))
+        sets = {}
+        for cname in ("Default", "Argument"):
+            seen = []
+
+            class E(tf.Engine):
+                def do_call(eng, fn, body, env, t):
+                    if fn.id == f.id and mir.callee_path(t).split("::")[-1] == "push" and len(t["args"]) > 1:
+                        seen.append(pushed_type(body, pv, t))
+                    return super().do_call(fn, body, env, t)
+            e = E(prog, follow=lambda g: False)
+            args = {i: tf.TOP for i in range(1, f.argc + 1)}
+            args[1] = tf.Ref(tf.TOP)
+            args[extra_local[0]] = e.make(POS, "Positioned", {0: tf.Tag(EC, cname)})
+            e.run(f, f.body, args)
+            sets[cname] = set(seen)
+        if not sets["Default"]:
+            raise CheckError("%s: no resolver seen for ExprContext::Default in %s" % (rule, f.path))
+        missing = sorted(sets["Default"] - sets["Argument"])
+        unit = "variable" if "variable" in f.file else ("property" if "property" in f.file else f.name)
+        ctx.decide(not missing, rule, "%s:%s" % (rule, unit), f.loc,
+                   "Argument offers the %d resolvers of Default" % len(sets["Default"]),
+                   "%s: for a name in argument position the converter never offers %s, which it offers elsewhere "
+                   "in an expression: `Bar Foo` / `PRINT LEN(Foo$)` with a parameterless FUNCTION Foo is refused "
+                   "(Duplicate definition) although `x = Foo` is a call" % (f.path.split("::", 1)[1], missing))
+    ctx.require(rule, 2)
+
+
 def run(ctx):
     common.install(ctx)
     from . import c09
@@ -774,3 +843,4 @@ def run(ctx):
     r8_function_name_writable_only_inside_it(ctx)
     r9_bare_name_selects_compact_entry_by_default_type(ctx)
     r10_written_suffix_is_looked_at(ctx)
+    r11_argument_position_resolves_like_any_value(ctx)
